@@ -4,7 +4,7 @@
       (c12 (cfg http|grpc proto|json GZIP LIMIT) (sig LOGS TRACES METRICS) (dead SIGNAL…)
            (events (ev ID log|span|metric xMDL PAD SIZE)…)
            (script (logs R…) (traces R…) (metrics R…)) (end flush|drop))
-      R ::= ack | ackbody | (status N) | (grpc N) | (grpch N) | stall | rstb | rsta
+      R ::= ack | ackbody | (status N) | (grpc N) | (grpch N) | stall | stallh | rstb | rsta      PAD ::= N | (rnd N)
       → `logs=[E…] traces=[E…] metrics=[E…] flush=true|dropped`   E ::= <ids joined by , | ?>:<resp>:<n|r>
   `(end drop)`: the emitter is dropped instead of flushed; each signal's worker still processes what is queued
   (batcher: a closed channel gets "a chance to emit any last batch"; client.rs:290-293 after the `fix:` waits for
@@ -38,6 +38,7 @@ def resp? : Sexp → Option Resp
   | .atom "ack" => some .ack
   | .atom "ackbody" => some .ackBody
   | .atom "stall" => some .stall
+  | .atom "stallh" => some .stallH
   | .atom "rstb" => some .rstB
   | .atom "rsta" => some .rstA
   | .list [.atom "status", n] => n.nat?.bind fun k => if 200 ≤ k ∧ k ≤ 599 then some (.status k) else none
@@ -47,7 +48,7 @@ def resp? : Sexp → Option Resp
 
 def showResp : Resp → String
   | .ack => "ack" | .ackBody => "ackbody" | .status n => s!"status{n}" | .grpc n => s!"grpc{n}"
-  | .grpcH n => s!"grpch{n}" | .stall => "stall" | .rstB => "rstb" | .rstA => "rsta"
+  | .grpcH n => s!"grpch{n}" | .stall => "stall" | .stallH => "stallh" | .rstB => "rstb" | .rstA => "rsta"
 
 def ev? : Sexp → Option CaseEv
   | .list [.atom "ev", id, k, mdl, pad, size] => do
@@ -55,7 +56,9 @@ def ev? : Sexp → Option CaseEv
     let k ← match k with
       | .atom "log" => some EvKind.log | .atom "span" => some .span | .atom "metric" => some .metric | _ => none
     let _ ← mdl.str?
-    let _ ← pad.nat?
+    let _ ← match pad with
+      | .list [.atom "rnd", n] => n.nat?
+      | p => p.nat?
     let size ← size.nat?
     if id ≤ 0 then none else pure ⟨⟨id, size⟩, k⟩
   | _ => none
@@ -96,7 +99,7 @@ def runC12 (line : String) : String :=
       some sl, some st, some sm =>
       if tr == .grpc && json then "bad-op"
       else if endMode != "flush" && endMode != "drop" then "bad-op"
-      else if tr == .http && (sl ++ st ++ sm).any (fun r => match r with | .grpc _ => true | .grpcH _ => true | _ => false) then "bad-op"
+      else if tr == .http && (sl ++ st ++ sm).any (fun r => match r with | .grpc _ => true | .grpcH _ => true | .stallH => true | _ => false) then "bad-op"
       else if hasDup (evs.map (·.ev.id)) then "bad-op"
       else
         let one (s : Signal) (configured : Bool) (script : List Resp) : String × Nat × Nat × Bool :=
